@@ -99,6 +99,10 @@ fn union(a: &Interp, b: &Interp) -> Interp {
     out
 }
 
+fn key_of(lt: &str, rt: &str, flags: &str) -> u64 {
+    hash64(&format!("{lt}|{rt}|{flags}"))
+}
+
 /// the same task through `anthem verify --equivalence strong`: Some(outcome) on a disagreement
 fn cli_agrees(case: &Case, problems: &[ProblemData], lt: &str, rt: &str, flags: &str, layout: usize) -> Option<Outcome> {
     let bin = crate::cli::anthem_bin()?;
@@ -216,7 +220,7 @@ impl Check for C03 {
             .boxed()
     }
     fn rule(&self) -> String {
-        "pair of programs (the second is the first with one rule replaced/added/dropped, reordered, identical, or unrelated) x {tau-star, mu} x direction x decomposition x simplify x eq-break x a pair (H,T), 1 in 7 with H not a subset of T (1 pair in 3 guided: the closure of one of the programs minus an atom); oracle: an interpretation of the h-/t-copies refutes an emitted forward (backward) problem (exact classical evaluation of the problems' syntax trees) iff H subset-of T and (H,T) satisfies the left (right) program but not the right (left) one by the reference semantics; non-trivial = H subset-of T, both verdicts definite and the axioms of some problem hold, or H not a subset of T; distinct by programs + flags + interpretation; one case in twelve is also run through the command line (programs named a.lp b.lp / n.lp b.lp / as a directory / file plus its directory / v2/prog.lp v1/prog.lp, the left program always first): the files written by --save-problems must be the problems judged in-process".into()
+        "pair of programs (the second is the first with one rule replaced/added/dropped, reordered, identical, or unrelated) x {tau-star, mu} x direction x decomposition x simplify x eq-break x a pair (H,T), 1 in 7 with H not a subset of T (1 pair in 3 guided: the closure of one of the programs minus an atom); oracle: an interpretation of the h-/t-copies refutes an emitted forward (backward) problem (exact classical evaluation of the problems' syntax trees) iff H subset-of T and (H,T) satisfies the left (right) program but not the right (left) one by the reference semantics; non-trivial = H subset-of T, both verdicts definite and the axioms of some problem hold, or H not a subset of T; distinct by programs + flags + interpretation; in one case in five every formula of every problem is also read back from the emitted TPTP text by the strict reader and must have its tree's truth value in the interpretation; one case in twelve is also run through the command line (programs named a.lp b.lp / n.lp b.lp / as a directory / file plus its directory / v2/prog.lp v1/prog.lp, the left program always first): the files written by --save-problems must be the problems judged in-process".into()
     }
     fn run(&self, case: &Case) -> Outcome {
         let direction = direction_of(case.direction);
@@ -317,10 +321,23 @@ impl Check for C03 {
                 _ => labels.push(format!("{prefix}:inconclusive")),
             }
         }
+        // one case in five: the problems are judged above by their syntax trees, the prover gets their text -
+        // every formula as the strict TFF reader reads it must have the truth value of its tree
+        if key_of(&lt, &rt, &flags) % 5 == 1 {
+            for p in &problems {
+                if let Some(d) = crate::checks::problems::text_disagrees(p, &classical, &pool, 100_000) {
+                    return Outcome::fail(
+                        "text-differs-from-tree",
+                        format!("C03: {d}\n  left: {lt}\n  right: {rt}\n  flags: {flags}\n  H: {}\n  T: {}", h.json(), t.json()),
+                    );
+                }
+            }
+            labels.push("text-read-back".into());
+        }
         // one case in twelve also goes through the command line: the program named first is the left
         // one and the one named second the right one, however the files are called and however the
         // arguments reach them; the files written must be the problems judged above
-        let key = hash64(&format!("{lt}|{rt}|{flags}"));
+        let key = key_of(&lt, &rt, &flags);
         if key % 12 == 0 {
             if let Some(o) = cli_agrees(case, &problems, &lt, &rt, &flags, (key / 12) as usize) {
                 return o;
